@@ -86,6 +86,21 @@ def clipf(lo, hi):
     return lambda i: max(i, lo)
 
 
+# group keys / distinct keys: unequal values with EQUAL hashes in CPython (-1/-2, 0/2**61-1) plus a tuple and a float variant
+GKEYS = [-1, -2, ('a', -1), ('a', -2), 2 ** 61 - 1, 0, 'x']      # pairwise unequal; (-1,-2), the two tuples and (2**61-1, 0) hash alike
+
+
+def f_gkey(m):
+    return lambda x: GKEYS[x % m]
+
+
+def twice(make):
+    """Construct an operator twice from the same arguments (the first result is thrown away): a constructor that mutates
+    the pipeline list it is given, or keeps state between constructions, shows in the second one."""
+    make()
+    return make()
+
+
 def splitf(kind, d):
     return k_div(d) if kind == 'div' else f_mod(d)
 
@@ -304,8 +319,8 @@ def _distinct_accept(tin, node):
     return tin
 
 
-simple('distinct', '*', _distinct_accept, lambda n, e: rs.ops.distinct(f_mod(n[1]) if n[1] else None),
-       lambda n, c: M.Distinct(f_mod(n[1]) if n[1] else None), stateful=True, dual=False)
+simple('distinct', '*', _distinct_accept, lambda n, e: rs.ops.distinct(f_gkey(n[1]) if n[1] else None),
+       lambda n, c: M.Distinct(f_gkey(n[1]) if n[1] else None), stateful=True, dual=False)
 simple('lag', '*', lambda t, n: 'pair' if isint(t) else 'any', lambda n, e: rs.data.lag(n[1]), lambda n, c: M.Lag(n[1]),
        stateful=True, dual=False)
 
@@ -371,10 +386,11 @@ class _GroupBy(_Container):
         return demono(t) if t else None
 
     def build(self, n, e):
-        return rs.ops.group_by(f_mod(n[1]), build_pipeline(n[2], e))
+        inner = build_pipeline(n[2], e)
+        return twice(lambda: rs.ops.group_by(f_gkey(n[1]), inner))
 
     def model(self, n, c):
-        return M.GroupBy(f_mod(n[1]), lambda: model_chain(n[2], c))
+        return M.GroupBy(f_gkey(n[1]), lambda: model_chain(n[2], c))
 
 
 @kind('roll')
@@ -384,7 +400,8 @@ class _Roll(_Container):
         return demono(t) if t else None
 
     def build(self, n, e):
-        return rs.data.roll(n[1], n[2], build_pipeline(n[3], e))
+        inner = build_pipeline(n[3], e)
+        return twice(lambda: rs.data.roll(n[1], n[2], inner))
 
     def model(self, n, c):
         return M.Roll(c, n[1], n[2], lambda: model_chain(n[3], c))
@@ -399,7 +416,8 @@ class _Split(_Container):
         return demono(t) if t else None
 
     def build(self, n, e):
-        return rs.data.split(splitf(n[1], n[2]), build_pipeline(n[3], e))
+        inner = build_pipeline(n[3], e)
+        return twice(lambda: rs.data.split(splitf(n[1], n[2]), inner))
 
     def model(self, n, c):
         return M.Split(splitf(n[1], n[2]), lambda: model_chain(n[3], c))
@@ -415,10 +433,12 @@ class _TimeSplit(_Container):
         return demono(t) if t else None
 
     def build(self, n, e):
+        inner = build_pipeline(n[5], e)
+        rs.data.time_split(time_mapper=to_dt, active_timeout=to_td(7), inactive_timeout=None, pipeline=inner)    # see twice()
         return rs.data.time_split(
             time_mapper=to_dt, active_timeout=to_td(n[1]), inactive_timeout=to_td(n[2]),
             closing_mapper=closingf(n[3]), include_closing_item=n[4],
-            pipeline=build_pipeline(n[5], e))
+            pipeline=inner)
 
     def model(self, n, c):
         return M.TimeSplit(lambda i: i, n[1], n[2], closingf(n[3]), n[4], lambda: model_chain(n[5], c))
@@ -451,7 +471,8 @@ class _Tee(Kind):
         return any(pipeline_ct(b) for b in node[2])
 
     def build(self, n, e):
-        return rs.ops.tee_map(*[build_pipeline(b, e) if b else rs.ops.identity() for b in n[2]], join=n[1])
+        branches = [build_pipeline(b, e) if b else rs.ops.identity() for b in n[2]]
+        return twice(lambda: rs.ops.tee_map(*branches, join=n[1]))
 
     def model(self, n, c):
         return M.Tee(c, [model_chain(b, c) for b in n[2]], n[1])
